@@ -28,7 +28,7 @@ func init() {
 			"undecided|subroute|http|wrapper|errmatcher|aftermatch). oracles: (a) never-early, one-sided: observed end - observed start >= timeout when the abort reason is the timeout; " +
 			"(b) bounded: ended by timeout+max(1s,timeout), evaluated only when the scheduler canary stayed below slack/4; (c) bytes pulled from the client <= 8192+2048; " +
 			"(d) fails closed: no handler/fallback event, connection closed; (e) after a match a sink still receives bytes sent 2x timeout later. " +
-			"non-trivial = the run reached its deciding observation; distinct = hash(all run parameters). variant aftermatch-nodata: every route of a subroute is decided as not matching without any read; the handler behind the subroute still receives data sent 2x timeout later and no deadline is left armed. flooding tcp clients write segments of 4 KiB or 64 KiB",
+			"non-trivial = the run reached its deciding observation; distinct = hash(all run parameters). variant aftermatch-nodata: every route of a subroute is decided as not matching without any read; the handler behind the subroute still receives data sent 2x timeout later and no deadline is left armed. flooding tcp clients write segments of 4 KiB or 64 KiB. pool child (one scheduler thread): connections of one server alternate between a client that feeds an undecided route up to the limit in small pieces and one that floods in 64 KiB segments; none has more than limit + chunk pulled",
 		Assumptions: []string{
 			"UDP end-of-association is observed through the scripted matcher's evaluation history (a restart of the accumulated prefix), which bounds the abort time from above only",
 			"upper bounds are statistical (canary-guarded); lower bounds are exact up to the observer clock",
@@ -36,9 +36,11 @@ func init() {
 		MinEvals: 40,
 		Plan: func(tier string) []fw.ChildSpec {
 			if tier == "thorough" {
-				return []fw.ChildSpec{{Name: "timed", Mode: "timed", Shards: 8, Timeout: 30 * time.Minute}}
+				return []fw.ChildSpec{{Name: "timed", Mode: "timed", Shards: 8, Timeout: 30 * time.Minute},
+					{Name: "pool", Mode: "pool", Shards: 1, Timeout: 30 * time.Minute, Env: []string{"GOMAXPROCS=1"}}}
 			}
-			return []fw.ChildSpec{{Name: "timed", Mode: "timed", Shards: 4, Timeout: 8 * time.Minute}}
+			return []fw.ChildSpec{{Name: "timed", Mode: "timed", Shards: 4, Timeout: 8 * time.Minute},
+				{Name: "pool", Mode: "pool", Shards: 1, Timeout: 8 * time.Minute, Env: []string{"GOMAXPROCS=1"}}}
 		},
 		Run:    run,
 		Replay: replay,
@@ -152,6 +154,10 @@ func alignPhase(phase float64) {
 }
 
 func run(c *fw.Ctx) {
+	if c.Mode == "pool" {
+		runPool(c)
+		return
+	}
 	hmods.Quiet(c.OutDir + "/caddyhome")
 	canary := oracle.StartCanary()
 	defer canary.Stop()
